@@ -30,6 +30,9 @@ pub struct OracleState {
     pub fresh_checked: BTreeSet<(usize, u64)>,
     pub commit_has_path: BTreeMap<u64, bool>,
     pub old_leaf_keys: BTreeMap<(usize, usize), (Vec<u8>, u64)>,
+    pub c13: crate::c13::C13State,
+    pub seal_pairs: BTreeSet<(Vec<u8>, Vec<u8>)>,
+    pub bursts: u32,
 }
 
 #[derive(Default)]
@@ -621,6 +624,7 @@ pub fn clear_modifiers() {}
 pub fn on_epoch(w: &mut World, p: usize, g: usize, how: &str) -> VResult<()> {
     crate::treeor::c08_on_epoch(w, p, g, how)?;
     crate::treeor::c09_on_epoch(w, p, g, how)?;
+    crate::c13::on_epoch(w, p, g, how)?;
     Ok(())
 }
 
@@ -826,6 +830,20 @@ pub fn do_special(w: &mut World, kind: &str, a: u64, b: u64, c: u64) -> VResult<
     match kind {
         "byz" => do_byz_commit(w, a as usize, 0, b as u8, c as u8),
         "apply_detached" => do_apply_detached(w, a as usize, 0, b),
+        "burst" => {
+            // C05: p sends b messages and then one more that overtakes them at every receiver
+            let p = a as usize;
+            if !w.live(p, 0) || !w.parties[p].mems[0].cached.is_empty() {
+                return Ok(false);
+            }
+            w.stats.fault("N-GAP");
+            *w.stats.probes.entry(format!("generation-gap:{b}")).or_default() += 1;
+            for _ in 0..b {
+                w.send_app_inner(p, 0, 3, 0, false)?;
+            }
+            w.send_app_inner(p, 0, 5, 1, true)?;
+            Ok(true)
+        }
         _ => Ok(false),
     }
 }
@@ -1054,9 +1072,13 @@ pub fn after_commit_built(
     pre: Pre,
     _out: &CommitOutput,
 ) -> VResult<()> {
-    if w.cfg.oracle("recipients") {
+    if w.cfg.oracle("record-crypto") {
         let events = crate::crypto::rec_take_events();
-        crate::treeor::c02_after_commit_built(w, p, g, id, events)?;
+        unique_seals(w, &events, "commit")?;
+        crate::c13::after_commit_built(w, p, g, id, &events)?;
+        if w.cfg.oracle("recipients") {
+            crate::treeor::c02_after_commit_built(w, p, g, id, events)?;
+        }
     }
     if !w.cfg.oracle("pending-model") {
         return Ok(());
@@ -1123,7 +1145,33 @@ pub fn on_wire(_w: &mut World, _bytes: &[u8], _kind: &str) -> VResult<()> {
     Ok(())
 }
 
-pub fn after_sent(w: &mut World, _p: usize, g: usize, id: u64) -> VResult<()> {
+/// C05 oracle 1: no (key, nonce) pair is ever used twice by any member of the world
+pub fn unique_seals(w: &mut World, events: &[crate::crypto::Ev], what: &str) -> VResult<()> {
+    if !w.cfg.oracle("nonce-unique") {
+        return Ok(());
+    }
+    for e in events {
+        if let crate::crypto::Ev::AeadSeal { key, nonce, party, .. } = e {
+            w.stats.check("key-nonce-pair-unique");
+            if !w.ext.seal_pairs.insert((key.clone(), nonce.clone())) {
+                return Err(Violation::new(
+                    &w.cfg.property,
+                    "key-nonce-unique",
+                    format!("key-nonce-reused:{what}"),
+                    format!("P{party}: an AEAD encryption while building a {what} used a (key, nonce) pair that was used before in this world"),
+                ));
+            }
+        }
+    }
+    Ok(())
+}
+
+pub fn after_sent(w: &mut World, p: usize, g: usize, id: u64) -> VResult<()> {
+    if w.cfg.oracle("record-crypto") {
+        let events = crate::crypto::rec_take_events();
+        unique_seals(w, &events, "message")?;
+        crate::c13::after_sent(w, p, g, id, &events)?;
+    }
     feed_removed(w, g, id)
 }
 
@@ -1224,6 +1272,11 @@ pub fn expect_msg(w: &World, p: usize, g: usize, id: u64) -> Expect {
             }
             if w.ext.rolled_back.contains(&(msg.sender, g, msg.epoch)) {
                 return Expect::May;
+            }
+            // the documented out-of-order window: at most 1024 generations ahead of the receiver's ratchet
+            let pos = mem.ratchet_pos.get(&(msg.sender, msg.epoch, true)).copied().unwrap_or(0);
+            if msg.gen > pos + 1024 {
+                return Expect::MustErr;
             }
             Expect::MustOk
         }
